@@ -76,6 +76,9 @@ class UnitarySerializedEmulator(IndependentSubcircuitsBackend):
                 else:
                     qind.append(val.resolve_qubit()[1])
 
+            if len(set(qind)) != len(qind):
+                raise JaqalError(f"Gate {gate.name} acts on the same qubit twice")
+
             # This is the dense submatrix
             dsub = gatedef.ideal_unitary(*argv)
 
